@@ -1,0 +1,96 @@
+//go:build verif
+
+package vgirpc
+
+import (
+	"bytes"
+	"strings"
+
+	"github.com/apache/arrow-go/v18/arrow"
+	"github.com/apache/arrow-go/v18/arrow/array"
+	"github.com/apache/arrow-go/v18/arrow/ipc"
+	"github.com/apache/arrow-go/v18/arrow/memory"
+)
+
+// verifReadRequestErr frames one request batch (schema fields, rows, custom
+// metadata) and returns the RpcError type the compiled ReadRequest refuses it
+// with ("" = accepted, "!" = non-RpcError failure).
+func verifReadRequestErr(withField bool, rows int, meta [][2]string) string {
+	var fields []arrow.Field
+	var cols []arrow.Array
+	if withField {
+		fields = []arrow.Field{{Name: "x", Type: arrow.PrimitiveTypes.Int64}}
+		b := array.NewInt64Builder(memory.DefaultAllocator)
+		for i := 0; i < rows; i++ {
+			b.Append(int64(i))
+		}
+		a := b.NewArray()
+		b.Release()
+		defer a.Release()
+		cols = []arrow.Array{a}
+	}
+	schema := arrow.NewSchema(fields, nil)
+	keys := make([]string, len(meta))
+	vals := make([]string, len(meta))
+	for i, p := range meta {
+		keys[i], vals[i] = p[0], p[1]
+	}
+	rec := array.NewRecordBatchWithMetadata(schema, cols, int64(rows), arrow.NewMetadata(keys, vals))
+	defer rec.Release()
+	var buf bytes.Buffer
+	w := ipc.NewWriter(&buf, ipc.WithSchema(schema))
+	if err := w.Write(rec); err != nil {
+		return "!"
+	}
+	if err := w.Close(); err != nil {
+		return "!"
+	}
+	req, err := ReadRequest(&buf)
+	if err == nil {
+		req.Batch.Release()
+		return ""
+	}
+	if re, ok := err.(*RpcError); ok {
+		return re.Type
+	}
+	return "!"
+}
+
+// verifSchemaLabel mirrors the harness' schemaLabel: name:type[?] joined by commas.
+func verifSchemaLabel(s *arrow.Schema) string {
+	parts := make([]string, s.NumFields())
+	for i, f := range s.Fields() {
+		n := ""
+		if f.Nullable {
+			n = "?"
+		}
+		parts[i] = f.Name + ":" + f.Type.String() + n
+	}
+	return strings.Join(parts, ",")
+}
+
+func init() {
+	verifConstProviders = append(verifConstProviders, func() []VerifConst {
+		good := [][2]string{{MetaMethod, "m"}, {MetaRequestVersion, ProtocolVersion}}
+		unk := &MethodNotImplementedError{Method: "m"}
+		pv := &ProtocolVersionError{Message: "m"}
+		return []VerifConst{
+			// exception types of the request-level refusals, taken from the compiled ReadRequest
+			verifBytes("ss_exc_no_method", verifReadRequestErr(true, 1, [][2]string{{MetaRequestVersion, ProtocolVersion}})),
+			verifBytes("ss_exc_bad_utf8", verifReadRequestErr(true, 1, [][2]string{{MetaMethod, "\xffm"}, {MetaRequestVersion, ProtocolVersion}})),
+			verifBytes("ss_exc_no_version", verifReadRequestErr(true, 1, [][2]string{{MetaMethod, "m"}})),
+			verifBytes("ss_exc_bad_version", verifReadRequestErr(true, 1, [][2]string{{MetaMethod, "m"}, {MetaRequestVersion, ProtocolVersion + "x"}})),
+			verifBytes("ss_exc_bad_rows", verifReadRequestErr(true, 2, good)),
+			verifBytes("ss_exc_zero_rows", verifReadRequestErr(true, 0, good)),
+			verifBytes("ss_exc_accepted", verifReadRequestErr(true, 1, good)),
+			verifBytes("ss_exc_empty_schema_rows", verifReadRequestErr(false, 3, good)),
+			verifBytes("ss_exc_ptr_zero_rows", verifReadRequestErr(true, 0, append([][2]string{{MetaShmOffset, "0"}, {MetaShmLength, "8"}}, good...))),
+			// typed framework errors
+			verifBytes("ss_exc_unknown_method", VerifExceptionType(unk)),
+			verifBytes("ss_kind_unknown_method", unk.ErrorKind()),
+			verifBytes("ss_exc_protocol_version", VerifExceptionType(pv)),
+			verifBytes("ss_kind_protocol_version", pv.ErrorKind()),
+			verifBytes("ss_describe_schema", verifSchemaLabel(describeSchema)),
+		}
+	})
+}
